@@ -661,7 +661,7 @@ func run(r *vk.Run, c Case) {
 // Run is the check entry point.
 func Run(r *vk.Run) {
 	world.Silence()
-	r.Rule = "the real AggregationLoop with the production function replaced by a recorder (the package's own test seam); scenarios: (inflight) lazy mode, idle interval 1 h, a production is held in flight, notifications arrive at swept offsets, after release a further production must start; (ondemand) lazy mode, block interval 20|50 ms, idle/block ratio 2|4|20, production duration 0|50|200 % of the block interval, 8 notifications at swept offsets after the end of the previous production; (latency) block interval 40 ms, ratio 6|20|40, production 0|50 %, 8 notifications 1.1-1.7 and 3.1-3.7 block intervals after the previous start (after one or three empty ticks); in both every notification must be followed by a block, a start-to-start gap below 95 % of the block interval or a latency above block interval + reference sleep overshoot + 25 % is a candidate when it occurs in >= 3 of 8 samples; (stream) notifications every 0.2-0.7 block intervals for 12 block intervals with the idle interval 40x away; (afteridle) block interval 30|40 ms, idle interval 1.5|2.5|3.5 block intervals, 8 notifications 4-33 % of a block interval after the start of an idle-timer block or before the next idle tick; (idle) no notifications, ratio 1|2|4, production 0|50|150 %: blocks over 24 periods; (normal) normal mode with and without a notification storm, production 0|50|120|200 %: blocks over 24 periods; lower bounds are relative to a reference timer loop running in the same process over the same window; (reaper) the real block.Reaper polls an execution double's mempool and submits to a queueing sequencer, real production, idle interval 1 h: an injected transaction must end up in a block. Time-based candidates count only when an immediate repetition of the scenario reproduces them. non-trivial = at least one notification; distinct by parameter tuple"
+	r.Rule = "the real AggregationLoop with the production function replaced by a recorder (the package's own test seam); scenarios: (inflight) lazy mode, idle interval 1 h, a production is held in flight, notifications arrive at swept offsets, after release a further production must start; (ondemand) lazy mode, block interval 20|50 ms, idle/block ratio 2|4|20, production duration 0|50|200 % of the block interval, 8 notifications at swept offsets after the end of the previous production; (latency) block interval 40 ms, ratio 6|20|40, production 0|50 %, 8 notifications 1.1-1.7 and 3.1-3.7 block intervals after the previous start (after one or three empty ticks); in both every notification must be followed by a block, a start-to-start gap below 95 % of the block interval or a latency above block interval + reference sleep overshoot + 25 % is a candidate when it occurs in >= 3 of 8 samples; (stream) notifications every 0.2-0.7 block intervals for 12 block intervals with the idle interval 40x away; (afteridle) block interval 30|40 ms, idle interval 1.5|2.5|3.5 block intervals, 8 notifications 4-33 % of a block interval after the start of an idle-timer block or before the next idle tick; (idle) no notifications, ratio 1|2|4, production 0|50|150 %: blocks over 24 periods; (normal) normal mode with and without a notification storm, production 0|50|120|200 %: blocks over 24 periods; lower bounds are relative to a reference timer loop running in the same process over the same window; (overrun) normal mode, block interval 20|30 ms, productions of 0|30 % of the interval except three that take 2.2-2.8, 3.2-3.8 and 4.2-4.8 intervals, with and without a notification storm: three block starts within less than 95 % of ONE block interval after a majority of the overruns is a candidate (a single short gap after an overrun - a fixed-phase ticker - is not); (reaper) the real block.Reaper polls an execution double's mempool and submits to a queueing sequencer, real production, idle interval 1 h: an injected transaction must end up in a block. Time-based candidates count only when an immediate repetition of the scenario reproduces them. non-trivial = at least one notification; distinct by parameter tuple"
 	r.Assume("decisions rest on real time only where load can merely make the implementation look better (timers never fire early; a production that does not start within 15 s although the idle interval is 1 h was not going to start) or relative to a reference measured in the same process over the same window (a timer loop re-armed by the stated rule; a plain sleep of one block interval started at the notification instant); a sample whose reference is itself below 80 % of nominal is repeated and finally inconclusive; isolated early/late samples are counted, not judged; a time-based candidate must reproduce on an immediate repetition of the scenario")
 	rng := r.Rand("cases")
 	var cases []Case
